@@ -59,8 +59,9 @@ class _Timeout(Exception):
 
 
 class _guard:
-    """per-case wall-clock guard: a hang of the real code (e.g. a hill climber
-    that no longer terminates) is reported as a failure of that case"""
+    """per-case guard in CPU seconds of this process (ITIMER_PROF), not wall-clock seconds: a hang of the real code (e.g. a hill
+    climber that no longer terminates) burns CPU and is reported as a failure of that case after the same amount of work on an
+    idle and on a fully loaded machine; a case that merely waits for a core is not"""
 
     def __init__(self, seconds):
         self.seconds = seconds
@@ -71,8 +72,8 @@ class _guard:
 
     def __enter__(self):
         try:
-            self.old = signal.signal(signal.SIGALRM, self._raise)
-            signal.setitimer(signal.ITIMER_REAL, self.seconds)
+            self.old = signal.signal(signal.SIGPROF, self._raise)
+            signal.setitimer(signal.ITIMER_PROF, self.seconds)
             self.armed = True
         except Exception:
             self.armed = False
@@ -80,8 +81,8 @@ class _guard:
 
     def __exit__(self, *exc):
         if self.armed:
-            signal.setitimer(signal.ITIMER_REAL, 0)
-            signal.signal(signal.SIGALRM, self.old)
+            signal.setitimer(signal.ITIMER_PROF, 0)
+            signal.signal(signal.SIGPROF, self.old)
         return False
 
 
